@@ -596,13 +596,23 @@ type seg struct {
 type gen struct {
 	Name string
 	Segs []seg
-	End  string // normal | return | retval | loop (loop = segments repeat forever)
+	End  string // normal | return | retval | loop (loop = segments repeat forever) | retval-in-loop (the whole generator is the body of a While loop and returns its value from inside)
 }
 
 const retVal = 4242
 
 // real generator; effects are logged into l
 func (g gen) real(l *[]string) seq.Seq[int] {
+	if g.End == "retval-in-loop" {
+		inner := gen{Name: g.Name, Segs: g.Segs, End: "retval"}
+		body := inner.real(l)
+		n := 0
+		// a loop that would run twice; the body returns a value from inside its first iteration
+		return seq.Delay(func() seq.Seq[int] {
+			n = 0
+			return seq.For(func() bool { n++; return n <= 2 }, func() {}, body)
+		})
+	}
 	var from func(i int, carry int) seq.Seq[int]
 	from = func(i int, carry int) seq.Seq[int] {
 		if i == len(g.Segs) {
@@ -678,7 +688,7 @@ func (m *model) advance(recv int) bool {
 		}
 		m.state = 2
 		m.current = 0
-		if m.g.End == "retval" {
+		if m.g.End == "retval" || m.g.End == "retval-in-loop" {
 			m.result = retVal
 		}
 		return false
@@ -764,6 +774,9 @@ func family() []gen {
 			}
 		}
 	}
+	gs = append(gs, gen{Name: "n0-retval-in-loop", Segs: nil, End: "retval-in-loop"})
+	gs = append(gs, gen{Name: "n1-bind-retval-in-loop", Segs: []seg{{false}}, End: "retval-in-loop"})
+	gs = append(gs, gen{Name: "n2-echo-retval-in-loop", Segs: []seg{{true}, {false}}, End: "retval-in-loop"})
 	gs = append(gs, gen{Name: "loop-echo", Segs: []seg{{true}}, End: "loop"})
 	gs = append(gs, gen{Name: "loop-bind-echo", Segs: []seg{{false}, {true}}, End: "loop"})
 	return gs
